@@ -56,6 +56,18 @@ Proof. exact overdue_monotone. Qed.
    regenerated on every run) are equal to the hand-written ones every theorem above is about ---- *)
 Theorem C19_source_is_model_is_overdue : forall p now, gen_is_overdue p now = overdue (p_ts p) (p_ttl p) now.
 Proof. exact gen_is_overdue_eq. Qed.
+(* "for messages, jobs and buckets alike": ArgsBucket.is_overdue, ResultBucket.is_overdue (repid/data/_buckets.py) and
+   Job.is_overdue (repid/job.py) are translated as well, each over the (timestamp, ttl) pair of its own object *)
+Theorem C19_source_is_model_args_bucket_is_overdue : forall p now, gen_args_bucket_is_overdue p now = overdue (p_ts p) (p_ttl p) now.
+Proof. exact gen_args_bucket_is_overdue_eq. Qed.
+Theorem C19_source_is_model_result_bucket_is_overdue : forall p now, gen_result_bucket_is_overdue p now = overdue (p_ts p) (p_ttl p) now.
+Proof. exact gen_result_bucket_is_overdue_eq. Qed.
+Theorem C19_source_is_model_job_is_overdue : forall p now, gen_job_is_overdue p now = overdue (p_ts p) (p_ttl p) now.
+Proof. exact gen_job_is_overdue_eq. Qed.
+Theorem C19_expiry_alike : forall p now,
+  gen_is_overdue p now = gen_args_bucket_is_overdue p now /\ gen_is_overdue p now = gen_result_bucket_is_overdue p now /\
+  gen_is_overdue p now = gen_job_is_overdue p now.
+Proof. intros p now. rewrite gen_is_overdue_eq, gen_args_bucket_is_overdue_eq, gen_result_bucket_is_overdue_eq, gen_job_is_overdue_eq. auto. Qed.
 Theorem C19_source_is_model_compute_next : forall p now, gen_compute_next p now = compute_next p now.
 Proof. exact gen_compute_next_eq. Qed.
 Theorem C19_source_is_model_prepare_reschedule : forall p now, gen_prepare_reschedule p now = prepare_reschedule p now.
@@ -89,3 +101,7 @@ Print Assumptions C19_source_is_model_backoff.
 Print Assumptions C19_source_is_model_wait_until_mem.
 Print Assumptions C19_source_is_model_wait_until_rabbit.
 Print Assumptions C19_source_is_model_wait_timestamp_redis.
+Print Assumptions C19_source_is_model_args_bucket_is_overdue.
+Print Assumptions C19_source_is_model_result_bucket_is_overdue.
+Print Assumptions C19_source_is_model_job_is_overdue.
+Print Assumptions C19_expiry_alike.
